@@ -364,13 +364,17 @@ def signature(e, clause):
 def run(ctx):
     rnd = random.Random(ctx.seed + 11)
     quick = ctx.tier == "quick"
-    versions = ["2.5"] if quick else ["2.5", "2.3", "2.6", "2.8.2"]
+    versions = ["2.5"] if quick else ["2.5", "2.5.1"]      # (the chains are those of 2.5, which 2.5.1 shares)
     events = []
     steps = 0
     for kind, conc in CONC.items():
         jobs = graph_jobs(ctx, rnd, conc, 18 if quick else 200, kind)
         jobs += walk_jobs(rnd, conc, 12 if quick else 150, 25 if quick else 40, kind)
         for version in versions:
+            try:
+                make_root(kind, version, False)
+            except Exception:
+                continue        # (the version does not define this root: QPD before 2.4, OML_O33 before 2.5)
             for strict in (False, True):
                 chunks = [(kind, version, strict, jobs[k::16]) for k in range(16)]
                 for part in pmap(_chunk, chunks):
